@@ -807,7 +807,7 @@ def run(ctx):
                not man.get("refused"), man.get("refused") or "")
     ctx.extra["rk4_tableau_generated"] = {"A": man.get("A_frac"), "B": man.get("B_frac")}
     ctx.lean_props(THEOREMS)
-    kernelval.validate(ctx, m, KERNELS, 3000 if thorough else 200, gens={n: gen_kernel for n in KERNELS}, label="C05 kernels")
+    kernelval.validate(ctx, m, KERNELS, 5000 if thorough else 200, gens={n: gen_kernel for n in KERNELS}, label="C05 kernels")
     ctx.extra["kernel_body_sha256"] = {n: m.get("kernels", {}).get(n, {}).get("sha256", "")[:16] for n in KERNELS}
 
     drv = ctx.driver("drv_c05")
@@ -838,12 +838,12 @@ def run(ctx):
 
     hist = {}
     if drv:
-        found, nfail = run_direct(ctx, drv, impl, 6000 if thorough else 500, dev, hist)
+        found, nfail = run_direct(ctx, drv, impl, 20000 if thorough else 500, dev, hist)
         for f in found:
             ctx.oracle_failure(f["key"], f["what"], f["replay"])
         ctx.extra["direct_oracle_failures"] = nfail
     stats = {}
-    sessions = gen_sessions(ctx, 1200 if thorough else 64, 2, 3, stats)
+    sessions = gen_sessions(ctx, 4000 if thorough else 64, 2, 3, stats)
     found, tstats, _ = run_trace(ctx, drv, impl, sessions, dev, "mj_step trace")
     for f in found:
         ctx.oracle_failure(f["key"], f["what"], f["replay"])
